@@ -198,6 +198,24 @@ theorem canonical_term_as_infix_operand (po : POps) (hα : ∀ c, isLetter c = t
       (parseTerm po (3 * d + 3 + f) R).bind fun r => .ok (.bip "unify" (some (.cons t (.cons r .nil)))) :=
   ⟨parse_canon po hα h f, canon_as_infix_operand po hα h f hrtrim hr⟩
 
+/-- C20, THE LEFT OPERAND OF A COMPARISON: the same for `==`, `<`, `<=`, `>`, `>=` — the subgoal `T op R` is the built-in predicate
+    of the operator (`equal`, `less_than`, ...) applied to `parse_term T` and `parse_term R`, for structured texts T as in
+    `as_infix_operand_structured`, hence for every canonical term text -/
+theorem as_comparison_operand_structured (po : POps) (f : Nat) (op : Cmp) {T R : Text} (htrim : trim T = T) (hne : T ≠ [])
+    (hfree : infixFree T = true) (hnext : parenNext T = true) (hrtrim : trim R = R) (hr : R ≠ []) :
+    parseSubgoal po (f + 1) (T ++ ' ' :: op.text ++ ' ' :: R) =
+      (parseTerm po f T).bind fun l => (parseTerm po f R).bind fun r =>
+        .ok (.bip op.name (some (.cons l (.cons r .nil)))) :=
+  parseSubgoal_struct_cmp po f op htrim hne hfree hnext hrtrim hr
+
+theorem canonical_term_as_comparison_operand (po : POps) (hα : ∀ c, isLetter c = true → po.isAlpha c = true) (op : Cmp) {d : Nat}
+    {T : Text} {t : Term} (h : Canon d T t) (f : Nat) {R : Text} (hrtrim : trim R = R) (hr : R ≠ []) :
+    parseSubgoal po (3 * d + 3 + f + 1) (T ++ ' ' :: op.text ++ ' ' :: R) =
+      (parseTerm po (3 * d + 3 + f) R).bind fun r => .ok (.bip op.name (some (.cons t (.cons r .nil)))) :=
+  canon_as_cmp_operand po hα op h f hrtrim hr
+
+example : Cmp.le.text = "<=".toList ∧ Cmp.le.name = "less_than_or_equal" ∧ Cmp.equal.text = "==".toList := by decide
+
 /-- C20, A LIST OF SEVERAL ELEMENTS: `parse_linked_list` of `[T1, ..., Tn]` parses each `Ti` exactly as `parse_term Ti` alone
     does (last element first, each linked in front of what is already built), for structured element texts with closed quotes
     and no comma or bar of their own outside quotes and brackets -/
